@@ -6,7 +6,7 @@ import PyxisVerif.Model.Printer
 namespace PyxisVerif
 namespace C18
 open Lex (K Delim Tok Pos)
-open Print (digitsLE digitChar)
+open Print (digitsLE digitChar Base)
 
 /-! ## positions lie inside the text -/
 
@@ -197,16 +197,6 @@ theorem intLoop_spec (b : Nat) (cs : List Char) (h : ∀ c ∈ cs, DigitCh b c) 
         intro e; subst e; simp [Lex.hexVal] at hd
       simp [Lex.intLoop, digitsVal, hne, hd, hlt, ih']
 
-
-inductive Base where
-  | dec | hex | oct | bin
-deriving DecidableEq, Repr
-
-def Base.radix : Base → Nat
-  | .dec => 10 | .hex => 16 | .oct => 8 | .bin => 2
-
-def Base.pre : Base → List Char
-  | .dec => [] | .hex => ['0', 'x'] | .oct => ['0', 'o'] | .bin => ['0', 'b']
 
 /-- `cs` spells a number in base `b`: digits of the base and `_` separators, at least one digit,
     and a decimal number starts with a digit (a leading `_` would make it an identifier) -/
@@ -518,7 +508,7 @@ theorem numChars_spelling (b : Base) (n : Nat) : Spelling b (numChars b.radix n)
     obtain ⟨_, _, _, h3⟩ := hall c (by simp [hcr])
     exact h3
 
-open Print (digitsLE digitChar)
+open Print (digitsLE digitChar Base)
 
 /-! ## one step of `lexCore` on the first character of a leaf token -/
 
@@ -595,7 +585,7 @@ theorem lexL_int (b : Base) (cs : List Char) (h : Spelling b cs) :
   simp only [Lex.lexCore, Except.map, List.map_cons, List.map_nil]
   rw [posOfRem_full]
 
-open Print (digitsLE digitChar)
+open Print (digitsLE digitChar Base)
 
 /-- executable form of `Spelling` -/
 def digitChB (b : Nat) (c : Char) : Bool :=
